@@ -44,11 +44,27 @@ pub struct World {
     pub parties: Vec<PartySpec>,
 }
 
-pub type WorldResult = Vec<Result<Vec<Outcome>, String>>;
+#[derive(Clone, Debug)]
+pub struct ProbeRec {
+    pub site: &'static str,
+    pub keys: usize,
+    pub fp: u64,
+}
 
-fn run_steps(prog: &ProgSpec, steps: &[Step]) -> Vec<Outcome> {
+/// per party: per step (outcome, hash-iteration probes recorded during the step)
+pub type WorldResult = Vec<Result<Vec<(Outcome, Vec<ProbeRec>)>, String>>;
+
+fn drain_probes() -> Vec<ProbeRec> {
+    garble_lang::verif_hooks::drain()
+        .into_iter()
+        .map(|p| ProbeRec { site: p.site, keys: p.keys, fp: p.order_fingerprint })
+        .collect()
+}
+
+fn run_steps(prog: &ProgSpec, steps: &[Step]) -> Vec<(Outcome, Vec<ProbeRec>)> {
     let mut typed: Option<Result<garble_lang::TypedProgram, Outcome>> = None;
     let mut out = vec![];
+    let _ = drain_probes();
     for s in steps {
         let consts = build_consts(&prog.consts, &s.perm, s.cap);
         let o = match s.mode {
@@ -69,7 +85,7 @@ fn run_steps(prog: &ProgSpec, steps: &[Step]) -> Vec<Outcome> {
                 }
             }
         };
-        out.push(o);
+        out.push((o, drain_probes()));
     }
     out
 }
@@ -112,7 +128,7 @@ pub fn judge(w: &World, r: &WorldResult) -> (Vec<Finding>, BTreeMap<String, u64>
     for (pi, (party, pr)) in w.parties.iter().zip(r.iter()).enumerate() {
         match pr {
             Ok(outs) => {
-                for (si, (s, o)) in party.steps.iter().zip(outs.iter()).enumerate() {
+                for (si, (s, (o, _))) in party.steps.iter().zip(outs.iter()).enumerate() {
                     *counters.entry(format!("outcome_{}", o.class())).or_insert(0) += 1;
                     groups
                         .entry((s.fn_name.clone(), s.opts.name()))
@@ -421,11 +437,21 @@ pub fn run_case(plan: &Plan, seed: u64, idx: u64) -> CaseResult {
     let mut evaluations = 0u64;
     let mut any_ok = false;
     let mut ok_groups: BTreeSet<u64> = BTreeSet::new();
+    // reach: (fn, opts, mode, call index, site) -> (max keys, distinct raw orders seen across parties)
+    #[allow(clippy::type_complexity)]
+    let mut reach: BTreeMap<(String, String, String, usize, &'static str), (usize, BTreeSet<u64>)> = BTreeMap::new();
     for (party, pr) in w.parties.iter().zip(r.iter()) {
         match pr {
             Ok(outs) => {
-                for (s, o) in party.steps.iter().zip(outs) {
+                for (s, (o, probes)) in party.steps.iter().zip(outs) {
                     evaluations += 1;
+                    for (ci, pr) in probes.iter().enumerate() {
+                        let e = reach
+                            .entry((s.fn_name.clone(), s.opts.name(), format!("{:?}", s.mode), ci, pr.site))
+                            .or_insert_with(|| (0usize, BTreeSet::new()));
+                        e.0 = e.0.max(pr.keys);
+                        e.1.insert(pr.fp);
+                    }
                     d.str(&o.key());
                     if let Outcome::Err { detail, .. } = o {
                         d.str(detail);
@@ -448,6 +474,33 @@ pub fn run_case(plan: &Plan, seed: u64, idx: u64) -> CaseResult {
     }
     let log = crate::seams::take_log();
     crate::seams::digest_log(&log, &mut d);
+    // reach counters; a (fn, opts) triple is "order-exercised" if some site position had >= 2 keys
+    // and was seen in >= 2 distinct raw orders
+    let mut exercised: BTreeSet<(String, String)> = BTreeSet::new();
+    for ((f, o, _m, _ci, site), (keys, orders)) in &reach {
+        *counters.entry(format!("site_{site}_positions")).or_insert(0) += 1;
+        if *keys >= 2 {
+            *counters.entry(format!("site_{site}_positions_ge2keys")).or_insert(0) += 1;
+            if orders.len() >= 2 {
+                *counters.entry(format!("site_{site}_positions_ge2keys_ge2orders")).or_insert(0) += 1;
+                exercised.insert((f.clone(), o.clone()));
+            }
+        }
+        d.usize(*keys);
+        d.usize(orders.len());
+    }
+    let mut exercised_ok: BTreeSet<u64> = BTreeSet::new();
+    for (f, o) in &exercised {
+        let mut h = Digest::new();
+        h.str(&w.program.src);
+        h.str(f);
+        h.str(o);
+        let k = h.finish().0;
+        if ok_groups.contains(&k) {
+            exercised_ok.insert(k);
+        }
+    }
+    *counters.entry("triples_compiled_ok".into()).or_insert(0) += ok_groups.len() as u64;
     *counters.entry(format!("programs_{family}")).or_insert(0) += 1;
     *counters.entry("parties".into()).or_insert(0) += w.parties.len() as u64;
     *counters.entry("keys_handed_by_seam".into()).or_insert(0) += log.iter().filter(|e| e.sys == b'g').count() as u64;
@@ -477,14 +530,14 @@ pub fn run_case(plan: &Plan, seed: u64, idx: u64) -> CaseResult {
         "source_head": w.program.src.lines().take(6).collect::<Vec<_>>().join("\n"),
         "consts": w.program.consts,
         "party0": w.parties.first(),
-        "outcome_party0": r.first().and_then(|x| x.as_ref().ok()).map(|v| v.iter().map(|o| o.key()).collect::<Vec<_>>()),
+        "outcome_party0": r.first().and_then(|x| x.as_ref().ok()).map(|v| v.iter().map(|o| o.0.key()).collect::<Vec<_>>()),
     });
     CaseResult {
         idx,
         family,
         digest: d.hex(),
         evaluations,
-        nontrivial: ok_groups.into_iter().collect(),
+        nontrivial: exercised_ok.into_iter().collect(),
         sets: BTreeMap::new(),
         counters,
         violations,
@@ -498,4 +551,85 @@ pub fn replay(v: &serde_json::Value) -> Result<Vec<Finding>, String> {
     crate::seams::reset_world();
     let r = run_world(&w);
     Ok(judge(&w, &r).0)
+}
+
+// ------------------------------------------------------------------------------------------
+// fidelity: thread-with-seam-keys == fresh OS process whose main thread has those keys
+// ------------------------------------------------------------------------------------------
+
+/// Child side: the *main thread* of a fresh process takes the keys (first RandomState in the
+/// process) and runs the party's steps directly.
+pub fn fidelity_child() -> i32 {
+    use std::io::Read;
+    let mut t = String::new();
+    if std::io::stdin().read_to_string(&mut t).is_err() {
+        return 2;
+    }
+    let Ok(w) = serde_json::from_str::<World>(&t) else { return 2 };
+    let Some(party) = w.parties.first() else { return 2 };
+    crate::seams::reset_world();
+    crate::seams::push_keys(party.keys.k0, party.keys.k1);
+    for _ in 0..party.keys.drift.max(1) {
+        let m: std::collections::HashMap<u8, u8> = std::collections::HashMap::new();
+        std::hint::black_box(&m);
+    }
+    if crate::seams::world().keys_handed != 1 {
+        println!("KEYS-NOT-TAKEN");
+        return 2;
+    }
+    let outs = run_steps(&w.program, &party.steps);
+    println!("{}", serde_json::to_string(&fidelity_view(&outs)).unwrap());
+    0
+}
+
+/// What must agree: outcomes AND the raw hash-iteration orders (probe fingerprints), which depend
+/// on the keys even when the circuit does not — so the comparison has teeth on a correct tree.
+fn fidelity_view(outs: &[(Outcome, Vec<ProbeRec>)]) -> Vec<String> {
+    outs.iter()
+        .map(|(o, ps)| format!("{}|{}", o.key(), ps.iter().map(|p| format!("{}:{}:{:x}", p.site, p.keys, p.fp)).collect::<Vec<_>>().join(",")))
+        .collect()
+}
+
+/// Parent side: for `n` sampled cases compare party 0 run in-thread against a fresh process.
+pub fn fidelity(plan: &Plan, seed: u64, n: u64) -> Result<(u64, u64), String> {
+    use std::io::Write;
+    let total = plan.n_cases();
+    let stride = (total / n.max(1)).max(1);
+    let mut checked = 0;
+    let mut skipped = 0;
+    let exe = std::env::current_exe().map_err(|e| e.to_string())?;
+    for idx in (0..total).step_by(stride as usize).take(n as usize) {
+        crate::seams::reset_world();
+        let (w, _, _) = make_world(plan, seed, idx);
+        let single = World { program: w.program.clone(), parties: vec![w.parties[0].clone()] };
+        let r = run_world(&single);
+        let Some(Ok(outs)) = r.first() else {
+            skipped += 1;
+            continue;
+        };
+        let want: Vec<String> = fidelity_view(outs);
+        let mut child = std::process::Command::new(&exe)
+            .arg("c06-child")
+            .env("RUST_BACKTRACE", "0")
+            .stdin(std::process::Stdio::piped())
+            .stdout(std::process::Stdio::piped())
+            .stderr(std::process::Stdio::null())
+            .spawn()
+            .map_err(|e| e.to_string())?;
+        child.stdin.take().unwrap().write_all(serde_json::to_string(&single).unwrap().as_bytes()).map_err(|e| e.to_string())?;
+        let out = child.wait_with_output().map_err(|e| e.to_string())?;
+        if !out.status.success() {
+            // e.g. main-thread stack overflow on a deep program: not comparable
+            skipped += 1;
+            continue;
+        }
+        let got: Vec<String> = serde_json::from_slice(out.stdout.split(|b| *b == b'\n').next().unwrap_or(b"[]")).map_err(|e| format!("fidelity child output: {e}"))?;
+        if got != want {
+            return Err(format!(
+                "thread-as-process abstraction broken for case {idx}: in-thread party gave {want:?}, fresh process with the same keys gave {got:?}"
+            ));
+        }
+        checked += 1;
+    }
+    Ok((checked, skipped))
 }
